@@ -43,6 +43,23 @@ def _migration(hist):
     return False
 
 
+def _nts_gap(f):
+    """a non-LWT request without datacenter preference on an NTS keyspace that does not list a datacenter of the
+    cluster, while some node is down or stopped (the slow path of choose_filtered must walk past the unlisted
+    datacenter; seeded change C12-3)"""
+    nodes = [x.split(".") for x in f[1].split(",")]
+    st = f[5].split("/")
+    cfg = f[4].split("/")
+    kss = f[3].split(";")
+    ks = int(st[0].split(".")[0], 16)
+    if ks >= len(kss) or not kss[ks].startswith("N") or kss[ks].endswith("/1") or st[2] == "1" or st[3] == "1":
+        return False
+    listed = {e.split("=")[0] for e in kss[ks][1:].rsplit("/", 1)[0].split("+") if e}
+    dcs = {x[0] for x in nodes}
+    pref_any = cfg[2][0] == "a" or (cfg[2][0] == "i" and cfg[6][0] == "a")
+    return len(dcs) >= 3 and bool(dcs - listed) and any(x[4] != "u" for x in nodes) and pref_any and cfg[3] == "1"
+
+
 def _kinds(lines, verdicts):
     c = {}
     for ln, v in zip(lines, verdicts):
@@ -65,6 +82,8 @@ def _kinds(lines, verdicts):
             f = ln.split("|")[0].split()
             if m.group(1).endswith("-replica") and len(f) == 8 and (f[5].split("/")[2] == "1" or f[5].split("/")[3] == "1"):
                 c["lwt-replica"] = c.get("lwt-replica", 0) + 1
+            if m.group(1) == "ring-replica" and len(f) == 8 and _nts_gap(f):
+                c["nts-unlisted-dc-with-unreachable-replica"] = c.get("nts-unlisted-dc-with-unreachable-replica", 0) + 1
     return c
 
 
@@ -74,7 +93,7 @@ _FLOORS = {"ring-replica": 0.15, "tablet-replica": 0.03, "pool-probe": 0.04, "ri
            "tablet-unknown-token": 0.03, "tablet-no-usable-replica": 0.003, "not-token-aware": 0.02,
            "lwt-replica": 0.02, "owner-shard-in-partial-pool": 0.002, "tablet-replica-after-shard-migration": 0.002,
            "refill": 0.007, "refill-after-connection-loss": 0.001, "refill-with-trimmed-excess": 0.0001,
-           "refill-after-reshard": 0.0003, "refill-dropping-requested-surplus": 0.00008}
+           "nts-unlisted-dc-with-unreachable-replica": 0.01, "refill-after-reshard": 0.0003, "refill-dropping-requested-surplus": 0.00008}
 
 
 def _post(lines, verdicts):
@@ -213,6 +232,9 @@ SPEC = {
              "(8 -> 2 shards, all but one connection cut) and one in twenty so that it always fills and trims the excess list "
              "(4 shards, plain port, one connection cut after a round-robin shift of one); the history also records the pool "
              "connections the CLIENT closed, which must be, as a multiset of (shard, shard count), the ones the model lets go; "
+             "one cluster in twenty has 3-4 datacenters in a fixed ring order, a single NetworkTopologyStrategy keyspace that lists "
+             "only the first and the last of them, the first datacenter's node down, no preferred datacenter and no LWT statement "
+             "(every token then has one unreachable and one reachable replica, with unlisted datacenters between them); "
              "then the pools are re-established by probing), and the pool "
              "that was finally established; the extracted refiller model run over that history must end with that pool. "
              "Tablet histories interleave payloads of the cluster's tables, include split / merge sequences and tablets listing a "
